@@ -1,7 +1,8 @@
 #!/bin/bash
 # usage: tools/why.sh <patch> PROP...   -- show failing rule instances of PROP on a scratch copy with the patch applied
-P=$1; shift; cd /verif
-T=$(mktemp -d); cp -r /repo/src /repo/Cargo.toml /repo/Cargo.lock /repo/README.md $T/
-PP=$(cd /verif && realpath $P); (cd $T && patch -p1 -s < $PP) || { echo "patch failed"; rm -rf $T; exit 1; }
-for p in "$@"; do /verif/check $p --repo $T --no-evidence -v 2>&1 | grep "^FAIL" | cut -c1-700; done
-echo "TREE=$T (remove when done)"
+V=$(cd "$(dirname "$0")/.." && pwd)
+P=$(realpath $1); shift
+T=$(mktemp -d /tmp/why.XXXXXX); cp -r /repo/src /repo/Cargo.toml /repo/Cargo.lock /repo/README.md $T/
+(cd $T && patch -p1 -s < $P) || { echo "patch failed"; rm -rf $T; exit 1; }
+for p in "$@"; do $V/check $p --repo $T --no-evidence -v 2>&1 | grep "^FAIL" | cut -c1-700; done
+rm -rf $T
